@@ -79,7 +79,24 @@ pub struct Life {
 }
 
 fn text_for(cs: &mut ChoiceStream, what: &str) -> String {
-    format!("{}-{}", what, cs.choose("close_text", 100000))
+    // unique (the oracles attribute an error to its close by code and text); one in eight is as long as a
+    // short string can be
+    let t = format!("{}-{}", what, cs.choose("close_text", 100000));
+    if cs.choose("close_text_long", 8) == 7 {
+        format!("{:-<255}", t)
+    } else {
+        t
+    }
+}
+
+/// Reply codes: "for every reply code" - the AMQP ones, 200 (reply-success, unusual but legal in a close), 0, 1,
+/// the largest, and anything in between.
+fn code_for(cs: &mut ChoiceStream, base: u16, span: u32) -> u16 {
+    match cs.choose("close_code_kind", 8) {
+        0 => 200,
+        1 => *pick(cs, "close_code_edge", &[0u16, 1, 199, 201, 65535, 311, 320, 402, 403, 404, 405, 406, 501, 502, 503, 504, 505, 506, 530, 540, 541]),
+        _ => base + cs.choose("close_code", span) as u16,
+    }
 }
 
 pub fn gen_life(cs: &mut ChoiceStream, lc: &LifeCfg) -> Life {
@@ -103,7 +120,7 @@ pub fn gen_life(cs: &mut ChoiceStream, lc: &LifeCfg) -> Life {
     let conn_end = pick(cs, "conn_end", &lc.conn_ends).clone();
     let conn_end = match conn_end {
         ConnEnd::ClientCloseEarly { .. } => ConnEnd::ClientCloseEarly { after_ns: 1_000 * (1 + cs.choose("close_after_us", 20_000) as u64) },
-        ConnEnd::ServerClose { .. } => ConnEnd::ServerClose { code: 300 + cs.choose("close_code", 250) as u16, text: text_for(cs, "CONNECTION_FORCED") },
+        ConnEnd::ServerClose { .. } => ConnEnd::ServerClose { code: code_for(cs, 300, 250), text: text_for(cs, "CONNECTION_FORCED") },
         x => x,
     };
     let n_threads = 1 + cs.choose("n_threads", lc.max_threads) as usize;
@@ -125,7 +142,7 @@ pub fn gen_life(cs: &mut ChoiceStream, lc: &LifeCfg) -> Life {
             ids.push(Some(id));
             let end = pick(cs, "chan_end", &lc.channel_ends).clone();
             let end = match end {
-                ChannelEnd::ServerClose { .. } => ChannelEnd::ServerClose { code: 400 + cs.choose("ch_close_code", 100) as u16, text: text_for(cs, "PRECONDITION_FAILED") },
+                ChannelEnd::ServerClose { .. } => ChannelEnd::ServerClose { code: code_for(cs, 400, 100), text: text_for(cs, "PRECONDITION_FAILED") },
                 x => x,
             };
             chans.push(ChanInfo { thread: thread_no, slot: s, id, end });
